@@ -56,7 +56,18 @@ inline String GenPath(vf::BS & bs, const Opts & o)
 inline MessageRef GenFilter(vf::BS & bs, int depth)
 {
    Message m;
-   switch(bs.u8()%10)
+   const uint8_t fb = bs.u8();
+   if (fb >= 246)
+   {
+      // a raw-bytes filter: its byte string shorter than, as long as and longer than the field values it meets (2, 4 and 5 bytes in the vocabulary of GenData), with and without a default
+      static const uint32 LENS[] = {0, 1, 2, 3, 4, 5, 6, 7, 9, 40}; const uint32 n = LENS[bs.u8()%10]; ByteBufferRef v = GetByteBufferFromPool(n); if (v()) for (uint32 i=0; i<n; i++) v()->GetBuffer()[i] = (uint8)("abc\0b\0\3\0\0\0"[(i+fb)%11]);
+      const uint8_t ob = bs.u8(); const char * fn = (ob&1) ? "s" : "v";
+      if (ob&2) {ByteBufferRef dv = GetByteBufferFromPool(1+(ob>>2)%3); if (dv()) memset(dv()->GetBuffer(), 'b', dv()->GetNumBytes()); RawDataQueryFilter f(fn, (uint8)((ob>>4)%RawDataQueryFilter::NUM_RAWDATA_OPERATORS), v, B_ANY_TYPE, 0, dv); (void) f.SaveToArchive(m);}
+           else {RawDataQueryFilter f(fn, (uint8)((ob>>4)%RawDataQueryFilter::NUM_RAWDATA_OPERATORS), v, B_ANY_TYPE, (ob>>2)&1); (void) f.SaveToArchive(m);}
+      vf::Count("filters_on_raw_bytes");
+      return GetMessageFromPool(m);
+   }
+   switch(fb%10)
    {
       case 0: {WhatCodeQueryFilter f(bs.u8()%4, bs.u8()%4); (void) f.SaveToArchive(m);} break;
       case 1: {ValueExistsQueryFilter f("v", (bs.u8()&1) ? B_INT32_TYPE : B_ANY_TYPE); (void) f.SaveToArchive(m);} break;
